@@ -10,7 +10,7 @@ VARIABLES sc, done
 Init == sc \in Scenarios(Universe, MaxDecl, AllOrders) /\ done = FALSE
 Emit ==
   /\ ~done /\ done' = TRUE /\ UNCHANGED sc
-  /\ PrintT("SCEN " \o ToJson([decl |-> SetToSeq(sc.d), first |-> sc.first, canonical |-> (sc.first = CanonFirst(sc.d)), rot |-> Rot(sc),
+  /\ PrintT("SCEN " \o ToJson([decl |-> SetToSeq(sc.d), first |-> sc.first, canonical |-> (sc.first = CanonFirst(sc.d)), rot |-> Rot(sc), core |-> Core(Universe, sc.d),
                                importable |-> Importable("as_is", sc.d), primary |-> Primary(sc.d, sc.first)]))
 Spec == Init /\ [][Emit]_<<sc, done>>
 =============================================================================
